@@ -799,6 +799,8 @@ func cryptoStreamMain(rc *RunCtx) {
 	}
 	sw.shortDen = shortDen
 	cc.SetDeadline(time.Time{})
+	eofWithData := failAt == 0 && st.Bool(1, 4)
+	ab.EOFWithData = eofWithData
 	cc.SetOutLink(ab)
 	sc.SetOutLink(ba)
 	if _, ok := cconn.(*crypto.Conn); !ok {
@@ -878,8 +880,11 @@ func cryptoStreamMain(rc *RunCtx) {
 		}
 	})
 	wj.Wait()
-	// let everything drain, then close
-	simrt.Sleep(5 * time.Second)
+	// let everything drain, then close; or (eofWithData) close at once, so
+	// that the end of the stream reaches the receiver together with data
+	if !eofWithData {
+		simrt.Sleep(5 * time.Second)
+	}
 	cconn.Close()
 	rdone.Wait()
 	_ = rerr
